@@ -8,7 +8,7 @@ from hypothesis import strategies as st
 from .. import engine, hist, inproc
 from .. import project as P
 
-STYLES = ["rel", "dot", "dslash", "updown", "abs", "symlink", "symlink-abs"]
+STYLES = ["rel", "dot", "dslash", "updown", "abs", "symlink", "symlink-abs", "link-dotdot"]
 
 
 @st.composite
@@ -57,6 +57,11 @@ def spell(t, cwd, style, root):
     if s == "updown":
         back = posixpath.relpath(".", cwd or ".")
         return posixpath.join(back, "e1", "..", t)
+    if s == "link-dotdot":
+        # up out of a symlinked directory whose destination has another parent than the link: e1/ln2 -> ../d1, so
+        # e1/ln2/.. is the project root (NOT e1, which a purely lexical cleaning would make of it)
+        back = posixpath.relpath(".", cwd or ".")
+        return posixpath.join(back, "e1", "ln2", "..", t)
     if s == "abs":
         return os.path.join(root, t)
     if s in ("symlink", "symlink-abs"):
